@@ -40,6 +40,16 @@ def holds(rel, o_a, a, b):
         return sorted(seq(a)) == sorted(seq(b))
     if rel == "sub":
         return qc.cols(a) == qc.cols(b) and qc.submulti(seq(a), seq(b))
+    if rel == "permcols":
+        # the SELECT list in another order: the same rows, their cells under the same column names
+        ca, cb = qc.cols(a).split(","), qc.cols(b).split(",")
+        if sorted(ca) != sorted(cb):
+            return False
+        if len(set(ca)) != len(ca):
+            return None   # two columns of one name: which is which is not defined
+        def keyed(cs, rows):
+            return sorted(tuple(sorted(zip(cs, r.split("|")))) for r in rows)
+        return keyed(ca, seq(a)) == keyed(cb, seq(b))
     if rel == "sameseq":
         if qc.kinds_mixed(o_a, a) or qc.kinds_mixed(o_a, b):
             return None
